@@ -4,6 +4,7 @@ import (
 	"fmt"
 	"go/token"
 	"go/types"
+	"reflect"
 	"sort"
 	"strconv"
 	"strings"
@@ -604,5 +605,53 @@ func c20Pages(p *core.Prog, r *core.Run, gzd *ssa.Function) {
 			r.Check("C20.PAGES", fmt.Sprintf("page-loop:exit b%d", b.Index), ok, p.InstrPos(b.Instrs[len(b.Instrs)-1]), "listing stops on: %s - accepted are an empty page, page >= total_pages, page*per_page >= count (quantities of this zone's own listing)", what)
 		}
 	}
+	// the quantities tested are the ones the API sends: the response's JSON
+	// names (Cloudflare API v4, "result_info": count, page, per_page, total_pages)
+	wantTag := map[string]string{"Count": "count", "Page": "page", "PerPage": "per_page", "TotalPages": "total_pages", "ResultInfo": "result_info", "Result": "result"}
+	gotTag := map[string]string{}
+	seenStruct := map[*types.Struct]bool{}
+	var tags func(st *types.Struct)
+	tags = func(st *types.Struct) {
+		if seenStruct[st] {
+			return
+		}
+		seenStruct[st] = true
+		for i := 0; i < st.NumFields(); i++ {
+			name := st.Field(i).Name()
+			if _, ok := wantTag[name]; ok {
+				tag := reflect.StructTag(st.Tag(i)).Get("json")
+				if k := strings.Index(tag, ","); k >= 0 {
+					tag = tag[:k]
+				}
+				if old, had := gotTag[name]; !had || old == wantTag[name] {
+					gotTag[name] = tag
+				}
+			}
+			if inner, ok := st.Field(i).Type().Underlying().(*types.Struct); ok {
+				tags(inner)
+			}
+		}
+	}
+	for b := range body {
+		for _, in := range b.Instrs {
+			if fa, ok := in.(*ssa.FieldAddr); ok {
+				if st, ok := deref2(fa.X.Type()).Underlying().(*types.Struct); ok && fieldVar(fa) != nil && fieldVar(fa).Name() == "ResultInfo" {
+					tags(st)
+				}
+			}
+		}
+	}
+	okTags := len(gotTag) > 0
+	for name, got := range gotTag {
+		if got != wantTag[name] {
+			okTags = false
+		}
+	}
+	for _, name := range []string{"Count", "Page", "PerPage", "TotalPages", "ResultInfo"} {
+		if _, ok := gotTag[name]; !ok {
+			okTags = false
+		}
+	}
+	r.Check("C20.PAGES", "page-info:json-names", okTags, p.InstrPos(page), "the paging quantities are decoded from the API's own field names: %v (want %v)", gotTag, wantTag)
 	r.Check("C20.PAGES", "page-loop:exits", nExit >= 1, p.InstrPos(page), "%d non-error exits of the page loop", nExit)
 }
